@@ -110,6 +110,22 @@ def step (s0 : MState) (j : Json) : MState × Json :=
       let s2 := { s1 with faultIn := none }
       (s2, obs s2 x [("sched", .str verdict), ("hyp", hypJson s2 m p)])
     | _, _, _ => bad s "iop"
+  | some "genfun" =>
+    match fieldArr j "args" with
+    | some args =>
+      (match args.mapM (fun (a : Json) => match a with
+          | .arr p => (match p.toList with
+            | [pth, v] => do let pth ← pathOfJson pth; let v ← valOfJson v; pure (pth, v)
+            | _ => none)
+          | _ => none) with
+       | some args =>
+         let startDeps := args.flatMap (fun a => chainR a.1)
+         let (sched, verdict) := mkSched (orderOf j) s.idx startDeps
+         let (s1, x) := execGen sched s args
+         (s1, obs s1 x [("sched", .str verdict),
+                        ("order", .arr ((findTaskids s.idx startDeps).map pathToJson).toArray)])
+       | none => bad s "genfun args")
+    | none => bad s "genfun"
   | some "unregister" =>
     match (field j "id").bind pathOfJson with
     | some id => let (s1, x) := unregister s id; (s1, obs s1 x [])
